@@ -46,9 +46,18 @@ Conforms(ev) ==
           /\ \A j \in 1..Len(keep) : ev.kept[j] = keep[j].id
           /\ ev.ok = (keep # <<>>)
 
+\* an "apply" event was observed through the benchfilter binary: only what Apply keeps is visible
+ConformsApply(ev) ==
+  LET keep == DKeep(ev.expr, ev.res) IN
+  /\ ev.err = ""
+  /\ \A i \in 1..Len(ev.res.meas) : ev.res.meas[i].id = i
+  /\ Len(ev.kept) = Len(keep)
+  /\ \A j \in 1..Len(keep) : ev.kept[j] = keep[j].id
+  /\ ev.ok = (keep # <<>>)
+
 TInit == /\ l = 1 /\ e = 0 /\ r0 = 0 /\ out = 0 /\ stage = 0
 TStep == /\ l <= Len(TraceLog)
-         /\ Conforms(TraceLog[l])
+         /\ IF TraceLog[l].ev = "apply" THEN ConformsApply(TraceLog[l]) ELSE Conforms(TraceLog[l])
          /\ l' = l + 1
          /\ UNCHANGED vars
 TSpec == TInit /\ [][TStep]_tvars
